@@ -10,6 +10,7 @@ dt_is_valid, dt_validate, report, via_flips, violations <n>   — values `ok` or
 -/
 import DelaunayModel.Model.ProtoCx
 import DelaunayModel.Model.Judge
+import DelaunayModel.Model.Flip
 open DM
 
 structure Res where
@@ -136,6 +137,22 @@ def runCx (c : Case) : Res :=
             stats := "cx.gp.checked" :: stats
             if !sameCellSet K (bruteDT K.D vp) then
               bad := s!"general-position result differs from the brute-force Delaunay cell set (D={K.D}, n={vp.length})" :: bad
+      -- ---------- C07 K1: the bistellar-move model applied to the pre-state must give the post-state
+      match c.ob "flipR", c.ob "flipI", c.ob "pre" with
+      | some [rS], some [iS], some [preS] =>
+        let nums (t : String) : List Nat := (t.splitOn ",").filterMap String.toNat?
+        let R := nums rS
+        let I := nums iS
+        let pre := (preS.splitOn ";").map (fun t => sortNat (nums t))
+        let post := K.cells.map cellKey
+        stats := "cx.flip.modelled" :: stats
+        if !flipGuard K.D pre R I then
+          bad := s!"flip reported Ok but the move (R={R}, I={I}) is not a legal bistellar move on the previous cell set (model guard false)" :: bad
+        else
+          let want := flipCells pre R I
+          if !(want.all post.contains && post.all want.contains && want.length == post.length) then
+            bad := s!"cells after the flip differ from the bistellar move R={R} I={I} applied to the previous cells (FlipInfo / edit mismatch)" :: bad
+      | _, _, _ => pure ()
       -- harness-side observations that must simply be 1 (computed on the Rust side from fingerprints)
       for n in ["unchanged", "vertices_kept", "key_resolves", "one_added", "removed_gone", "same_vertices", "roundtrip_equal"] do
         match c.ob n with
